@@ -144,6 +144,9 @@ def gen_cases(seed, tier, n):
     for i in range(n):
         c = tracegen.gen_case(seed, i, tracegen.PROFILES[profs[i % len(profs)]])
         c["params"] = {"fseed": seed * 7919 + i, "empty": i % 17 == 16}
+        if i % 3 == 1:
+            # device-wide synchronisation records without a correlation id (their runtime call is not in the trace): still device-side rows
+            tracegen.add_idless_sync_record(c, random.Random(seed * 86243 + i))
         out.append(c)
     return out
 
@@ -292,6 +295,21 @@ def run_impl(case, d):
                                     f"with the table it selected {want[:12]}")
             except Exception as e:
                 problems.append(f"name filter {f} called again without a table on the string-valued frame raised {type(e).__name__}: {str(e)[:120]}")
+        # the same frame with a further string column s_name / s_cat that holds OTHER strings (as a frame has after decode_symbol_ids with
+        # shortened names followed by add_symbols_to_trace_df): the name column is the one a name pattern is about
+        dec4 = dec3.copy()
+        dec4["s_name"] = df["name"].apply(lambda i: sym[(i + 1) % len(sym)][:12])
+        dec4["s_cat"] = df["cat"].apply(lambda i: sym[(i + 1) % len(sym)][:12])
+        for f, want in zip(filters, outs["encoded+table"]):
+            if f["k"] != "name" or isinstance(want, str):
+                continue
+            try:
+                got = [int(i) for i in mk_filter(f, st)(dec4).index]
+                if got != want:
+                    problems.append(f"name filter {f}, without a table, on the frame whose name column holds the names and whose s_name column holds "
+                                    f"other (shortened) strings selects {got[:12]}; by the name column it is {want[:12]}")
+            except Exception as e:
+                problems.append(f"name filter {f} without a table on the frame with string name and s_name columns raised {type(e).__name__}: {str(e)[:120]}")
     return {"rows": rows, "ranks": rank_col, "filters": filters, "symtab": list(sym), "out": outs, "problems": problems}
 
 
